@@ -104,3 +104,16 @@ CHECKS["C20"] = {
          "reported as an observation.",
  "technique": "model regenerated from source + machine-checked proof in Coq + correspondence check",
 }
+
+CHECKS["C19"] = {
+ "text": "Coq theorems over a model of positionIndex/pos/yamlEndPos/ScalarRange parametrised by seven source facts read by srcfacts "
+         "(guard bounds, column and length units): for ALL texts, positions and node trees, byte offsets agree with line/column "
+         "(true_byte, cross-proved against a single-pass scan), ranges lie inside the text with begin <= end, and a plain single-line "
+         "scalar's range slices to its text - each with a _partial theorem outside decidable known classes, a _refuted witness while the "
+         "defective fact is in the source, and a _full_if_repaired theorem; the implementation's every range (Exprs, Trace.Def, "
+         "diagnostics, imports) is compared with the model fed by yaml.v3's own node positions",
+ "note": "Trusted: Coq kernel, srcfacts, correspondence harness, extraction. yaml.v3's node positions are an input of the model (checked "
+         "per run: plain scalars are found at their yaml position); uniseg is modelled for width-1 code points only. Six known findings "
+         "are pinned by golden files of the unedited suite (see known-findings.txt).",
+ "technique": "machine-checked proof in Coq + model/implementation correspondence check",
+}
